@@ -13,7 +13,12 @@ class Verdict:
 
 
 def hyps_of(path, obl):
-    return list(path.pc[:obl.nhyps]) + list(obl.extra_hyps)
+    hyps = []
+    for i, h in enumerate(path.pc[:obl.nhyps]):
+        if obl.uses is not None and i in getattr(path, "req_index", {}) and path.req_index[i] not in obl.uses:
+            continue        # hypothesis discipline: a precondition the clause does not declare
+        hyps.append(h)
+    return hyps + list(obl.extra_hyps)
 
 
 def discharge(path, obl, timeout_ms=10000, use_cvc5=True, extra=()):
